@@ -67,13 +67,11 @@ def model(case):
         if vals and min(vals) > 0:
             return float(min(vals)), 'dt_adapt'
         # present but not "used and positive" (no real particle carries it,
-        # or its minimum is zero): the statement says "otherwise" the
-        # criteria formula, the implementation keeps the fixed step; either
-        # reading is accepted, anything else (inf, an exception) is not
+        # or its minimum is zero): "otherwise" the criteria formula
         alt, _ = model(dict(case, arrays=[
             dict(a, props={k: v for k, v in a['props'].items()
                            if k != 'dt_adapt'}) for a in arrays]))
-        return ('either', alt), 'dt_adapt_nonpositive'
+        return alt, 'dt_adapt_nonpositive'
     hs = [v for a in arrays for v in a['h']]
     if not hs:
         return None, 'no_particles'
@@ -245,21 +243,13 @@ def work(item):
                 key=key, what='compute_time_step raised %s' % info['exc'],
                 case=case))
             continue
-        if isinstance(want, tuple):
-            alt = want[1]
-            if got is None or (alt is not None and
-                               abs(got - alt) <= 1e-12 * abs(alt)):
-                c('dt_adapt_nonpositive_fixed_or_formula')
-            else:
-                res['violations'].append(dict(
-                    key=classify(case, why, got, alt),
-                    what='dt_adapt present but not positive: got %r, accepted '
-                         'None or %r' % (got, alt), case=case))
-            continue
         ok = (got is None and want is None) or (
             got is not None and want is not None and
             abs(got - want) <= 1e-12 * abs(want))
-        if why in ('criteria', 'dt_adapt'):
+        if why == 'dt_adapt_nonpositive' and want is not None:
+            c('dt_adapt_unused_criteria_apply')
+        if why in ('criteria', 'dt_adapt') or (
+                why == 'dt_adapt_nonpositive' and want is not None):
             res['distinct'].append('%d' % case['idx'])
         if not ok:
             res['violations'].append(dict(
@@ -301,7 +291,8 @@ def run(tier):
              for a, b in harness.chunks(n, 500 if tier == 'quick' else 5000)]
     m = harness.execute('checks.c19', items, timeout=3600)
     v = common.Verdict(PROP)
-    for key in ('why_criteria', 'why_dt_adapt', 'why_no_criterion'):
+    for key in ('why_criteria', 'why_dt_adapt', 'why_no_criterion',
+                'dt_adapt_unused_criteria_apply'):
         if m.counters.get(key, 0) < 50:
             v.inconclusive_because('only %d cases of kind %s' % (
                 m.counters.get(key, 0), key))
@@ -314,9 +305,9 @@ def run(tier):
              'particle), cfl, fixed_h; refreshed by a real NNPS.update_domain;'
              ' compared with a numpy transcription of the statement to 1e-12; '
              'non-trivial = a criterion applies (formula or dt_adapt branch)',
-        assumptions=['dt_adapt present but not positive: the statement is '
-                     'read as "falls back to the criteria"; the code keeps '
-                     'the fixed step; counted, not asserted',
+        assumptions=['dt_adapt present but not positive (zero, or on no real '
+                     'particle): "otherwise" the criteria formula applies, '
+                     'as for arrays without the property',
                      'h min/max caches are as fresh as the last domain '
                      'update, as in the solver loop'],
         min_evaluations=1000, min_distinct=300)
